@@ -414,6 +414,42 @@ def _find_group_builder(idx, f, S: Sem, grp_name: str, ikv: str, at: int):
     return None
 
 
+def _through_package_helpers(idx, f: FunctionInfo, S: Sem, alts: List[ast.AST]) -> List[ast.AST]:
+    """An alternative that is a call of a module-level function of the package with a straight-line / if-reassign body and one return is replaced
+    by the alternatives of that return value (parameters bound to the arguments) — e.g. a bound computed by `get_top_of_sea(emin, E, groups)`."""
+    out: List[ast.AST] = []
+    for a in alts:
+        g = None
+        if isinstance(a, ast.Call) and isinstance(a.func, ast.Name):
+            g = idx.resolve_name(f.module, a.func.id) if hasattr(idx, "resolve_name") else None
+            if not isinstance(g, FunctionInfo):
+                cands = [h for h in idx.all_functions() if h.cls is None and h.name == a.func.id]
+                g = cands[0] if len(cands) == 1 else None
+        if not isinstance(g, FunctionInfo) or g.name in ("get_bands_below_range", "get_bands_above_range", "get_bands_in_range"):
+            out.append(a)
+            continue
+        rets = [r for r in ast.walk(g.node) if isinstance(r, ast.Return) and r.value is not None]
+        if len(rets) != 1 or any(isinstance(x, (ast.For, ast.While, ast.Try, ast.With)) for x in ast.walk(g.node)) or any(isinstance(x, ast.Starred) for x in a.args):
+            out.append(a)
+            continue
+        params = list(g.params)
+        bind = {p_: v_ for p_, v_ in zip(params, a.args)}
+        bind.update({k.arg: k.value for k in a.keywords if k.arg in params})
+        pa = g.node.args
+        pos = [x.arg for x in pa.posonlyargs + pa.args]
+        for i_, d_ in enumerate(pa.defaults):
+            bind.setdefault(pos[len(pos) - len(pa.defaults) + i_], d_)
+        if any(p_ not in bind for p_ in params):
+            out.append(a)
+            continue
+        GS = Sem(idx, g)
+        GS.inline_helpers = False
+        GS.keep_names = set(params)
+        for ga in GS.alternatives(rets[0].value, GS.cfg.node(rets[0])):
+            out.append(S._subst(ga, bind))
+    return out
+
+
 def completion_blocks(idx, f: FunctionInfo):
     """The 'everything below / above the scanned window' blocks added next to the in-range groups:
     `W[(LO, HI)] = value` stores whose LO or HI comes from get_bands_below_range / get_bands_above_range.
@@ -433,8 +469,8 @@ def completion_blocks(idx, f: FunctionInfo):
         lo, hi = st.targets[0].slice.elts
         at = S.cfg.node(st)
         S.keep_names = {G}
-        alts_lo = S.alternatives(lo, at)
-        alts_hi = S.alternatives(hi, at)
+        alts_lo = _through_package_helpers(idx, f, S, S.alternatives(lo, at))
+        alts_hi = _through_package_helpers(idx, f, S, S.alternatives(hi, at))
         S.keep_names = set()
         has = lambda alts, fn: any(isinstance(c, ast.Call) and call_name(c).split(".")[-1] == fn for a in alts for c in ast.walk(a))
         conds = [(t, p) for t, p, _ in S.conditions(st, resolve=False)]
